@@ -323,12 +323,22 @@ func (prop) Gen(r *rand.Rand, tier string) []core.Case {
 		f := &fmap.FMap{}
 		copy(f.Signature[:], fmap.Signature)
 		f.VerMajor, f.VerMinor, f.Base, f.Size = 1, uint8(r.Intn(3)), 0xff000000, uint32(imgLen)
-		copy(f.Name.Value[:], "FLASH")
+		// printable names of every length up to the full 32-byte field (an area name may fill it without a
+		// terminating NUL; the header name must keep one or Read rejects the map).  Seeded defect c13-6: the
+		// JSON decoder dropped the 32nd byte of a name.
+		printable := func(prefix string, n int) []byte {
+			b := []byte(prefix)
+			for len(b) < n {
+				b = append(b, "ABCDEFGHIJKLMNOPQRSTUVWXYZ0123456789-."[r.Intn(38)])
+			}
+			return b[:n]
+		}
+		copy(f.Name.Value[:], printable("FLASH", []int{5, 5, 6, 17, 30, 31}[r.Intn(6)]))
 		for k := 0; k < r.Intn(5); k++ {
 			var a fmap.Area
 			a.Size = uint32(r.Intn(64))
 			a.Offset = uint32(r.Intn(imgLen - 64))
-			copy(a.Name.Value[:], fmt.Sprintf("AREA%d", k))
+			copy(a.Name.Value[:], printable(fmt.Sprintf("AREA%d", k), []int{5, 5, 6, 17, 30, 31, 32, 32}[r.Intn(8)]))
 			a.Flags = uint16(r.Intn(8))
 			f.Areas = append(f.Areas, a)
 		}
